@@ -487,6 +487,7 @@ func cmdC05(seed uint64, thorough bool, dir string) {
 		}
 	}
 	st.Extra["value_evaluations"] = nval
+	c05BoolChains(st)
 	st.write(dir + "/C05_stats.json")
 }
 
@@ -514,4 +515,104 @@ func c05ValidGo(src string) bool {
 		return err == nil
 	}
 	return true
+}
+
+// c05BoolChains: every chain of && / || over four boolean operands in every parenthesisation (and with a negated
+// operand or group), each under all 16 truth assignments, evaluated by goatlang with the optimizer on (the
+// short-circuit jumps of a chain are where a code generator can regroup what the parser grouped correctly)
+// against the evaluation of go/parser's tree.
+func c05BoolChains(st *stats) {
+	atoms := []string{"p", "q", "r", "s"}
+	ops := []string{"&&", "||"}
+	var exprs []string
+	shapes4 := []string{"A o1 B o2 C o3 D", "(A o1 B) o2 C o3 D", "A o1 (B o2 C) o3 D", "A o1 B o2 (C o3 D)", "(A o1 B o2 C) o3 D", "A o1 (B o2 C o3 D)",
+		"(A o1 B) o2 (C o3 D)", "((A o1 B) o2 C) o3 D", "A o1 ((B o2 C) o3 D)", "(A o1 (B o2 C)) o3 D", "A o1 (B o2 (C o3 D))"}
+	shapes3 := []string{"A o1 B o2 C", "(A o1 B) o2 C", "A o1 (B o2 C)"}
+	fill := func(shape string, o []string, neg int) string {
+		e := shape
+		for i, a := range atoms {
+			v := a
+			if neg == i+1 {
+				v = "!" + a
+			}
+			e = strings.ReplaceAll(e, string(rune('A'+i)), v)
+		}
+		for i := range o {
+			e = strings.ReplaceAll(e, fmt.Sprintf("o%d", i+1), o[i])
+		}
+		if neg == 5 {
+			e = strings.Replace(e, "(", "!(", 1)
+		}
+		return e
+	}
+	for _, o1 := range ops {
+		for _, o2 := range ops {
+			for _, sh := range shapes3 {
+				for neg := 0; neg <= 5; neg++ {
+					exprs = append(exprs, fill(sh, []string{o1, o2}, neg))
+				}
+			}
+			for _, o3 := range ops {
+				for _, sh := range shapes4 {
+					for neg := 0; neg <= 5; neg++ {
+						exprs = append(exprs, fill(sh, []string{o1, o2, o3}, neg))
+					}
+				}
+			}
+		}
+	}
+	seen := map[string]bool{}
+	var uniq []string
+	for _, e := range exprs {
+		if !seen[e] {
+			seen[e] = true
+			uniq = append(uniq, e)
+		}
+	}
+	var sb strings.Builder
+	for i, e := range uniq {
+		fmt.Fprintf(&sb, "func bc%d(p bool, q bool, r bool, s bool) bool { return %s }\n", i, e)
+		// the same chain as the condition of an if, where the last jump of the chain is the statement's own
+		fmt.Fprintf(&sb, "func bi%d(p bool, q bool, r bool, s bool) int { if %s { return 1 }; return 0 }\n", i, e)
+	}
+	var out bytes.Buffer
+	vm := g.New(g.WithStdout(&out))
+	if _, err := vm.Eval(fstest.MapFS{}, "in", sb.String()); err != nil {
+		st.mismatchG("setup", c05Mismatch{Kind: "setup", Got: err.Error()})
+		return
+	}
+	for i, e := range uniq {
+		ge, err := parser.ParseExpr(e)
+		must(err)
+		for m := 0; m < 16; m++ {
+			env := map[string]tval{}
+			var args []g.Value
+			for k, a := range atoms {
+				b := m>>k&1 == 1
+				env[a] = tval{isBool: true, b: b}
+				args = append(args, g.Bool(b))
+			}
+			v, _ := goEval(ge, env)
+			st.add("boolean chain", e)
+			for _, form := range []string{"bc", "bi"} {
+				rets, err := vm.Call(fmt.Sprintf("main.%s%d", form, i), 1, args...)
+				got := "error"
+				if err == nil {
+					got = rets[0].String()
+				}
+				want := fmt.Sprint(v.b)
+				if form == "bi" {
+					want = "0"
+					if v.b {
+						want = "1"
+					}
+				}
+				if got != want {
+					st.mismatchG("value|boolean chain", c05Mismatch{Kind: "value", Expr: e, Ops: form, Expected: want, Got: got,
+						Env: fmt.Sprintf("p=%v q=%v r=%v s=%v", env["p"].b, env["q"].b, env["r"].b, env["s"].b)})
+				}
+			}
+		}
+	}
+	st.Extra["boolean_chains"] = len(uniq)
 }
